@@ -254,6 +254,12 @@ SRC_A = [
     ((6, 7), (0.25, 0.0, 16.0, 0.0, -0.5, 32.0), "EPSG:3857"),
     ((1, 5), (30.0, 0.0, 499980.0, 0.0, -30.0, 6000015.0), "EPSG:32633"),
     ((9, 4), (0.1, 0.0, 147.3, 0.0, -0.05, -35.2), "EPSG:4326"),
+    # 3: tiny pixels (4.5e-6 deg), origin not a whole number of pixels from 0
+    ((6, 7), (4.5e-6, 0.0, 147.3000371, 0.0, -4.5e-6, -35.2000113), "EPSG:4326"),
+    # 4: huge non-square pixels, portrait, origin within 1e-3 of a whole number / half a pixel off
+    ((9, 4), (1e5, 0.0, -2000000.0004, 0.0, -2.5e5, 6125000.0), "EPSG:3857"),
+    # 5: larger source for the read_shrink windows (sizes that are not multiples of 2, 3, 4, 8)
+    ((23, 37), (0.25, 0.0, 16.0, 0.0, -0.5, 32.0), "EPSG:3857"),
 ]
 DST_A = [(5, 6), (2, 3), (1, 1)]
 
@@ -310,17 +316,84 @@ def _gen_A(srcs, dsts, scales, mirrors, rots, subs, padal, ymode):
                                         yield (si, dshape, sc, mir, rot, kx, ky, sub, pad, al)
 
 
+# every padding x align combination, incl. explicit zeros, on relations that reach the paste and the sampled path;
+# plus explicit (zero / wide) ttol and stol and numpy-integer options on the two all-default / all-zero pairs
+REL_O = [((1.0, 1.0), 0, 0.0), ((1.0, 1.0), 0, -0.04), ((2.0, 2.0), 0, 0.0), ((3.0, 3.0), 0, 0.12), ((1.0, 1.0), 0, 0.3),
+         ((1.5, 1.5), 0, 0.0), ((0.5, 0.5), 0, 0.01), ((1.0, 1.0), 15, 0.0), ((2.0, 2.0), 90, 0.0)]
+PADAL_O = [(p, a) for p in (None, 0, 1, 3) for a in (None, 0, 1, 2, 4)]
+EXTRA_O = [(("ttol", 0),), (("stol", 0),), (("ttol", 0.2),), (("stol", 0.01),), (("ttol", 0.0), ("stol", 0.0)), (("np", True),)]
+
+
+def gen_O(thorough):
+    for si in ((0, 1, 2) if thorough else (0, 2)):
+        nsy, nsx = SRC_A[si][0]
+        for sc, rot, sub in REL_O:
+            _, ew, eh = _base(DST_A[0], sc, 0, rot)
+            for mir in ((0, 1, 2, 3) if thorough else (0, 3)):
+                for ky in (-2, 0):
+                    combos = [(p, a, ()) for p, a in PADAL_O]
+                    combos += [(p, a, e) for p, a in ((None, None), (0, 0), (0, None), (None, 0)) for e in EXTRA_O]
+                    for pad, al, e in combos:
+                        m = _peff(pad) + 1
+                        for kx in range(-math.ceil(ew - 1e-9) - m, nsx + m + 1):
+                            yield (si, DST_A[0], sc, mir, rot, kx, ky, sub, pad, al, e)
+
+
+# read_shrink / paste windows: n*(1 +- tol*f) and n +- tol*f around the integers, (1/n)*(1 +- tol*f), just below 1, near 0
+def _windows():
+    tol, out = 1e-3, []
+    for n in (1, 2, 3, 4, 8):
+        for f in (0.9, 0.999, 1.001, 1.1):
+            for sg in (1, -1):
+                out += [n * (1 + sg * tol * f), n + sg * tol * f]
+    for n in (2, 3, 4):
+        for f in (0.9, 1.1):
+            for sg in (1, -1):
+                out.append((1 / n) * (1 + sg * tol * f))
+    out += [1 - 1e-6, 1 - 1e-9, 0.999999 / 1, 1 / 1024, (1 / 1024) * (1 + 1e-3), 4.5e-6]
+    return sorted(set(out))
+
+
+WINDOWS = _windows()
+PADAL_W = [(None, None), (0, None), (0, 0), (1, 2)]
+
+
+def gen_W(thorough):
+    si = 5
+    nsy, nsx = SRC_A[si][0]
+    scs = [(s, s) for s in WINDOWS] + [(2 * (1 + 1.1e-3), 2.0), (3.0, 3 * (1 - 0.9e-3)), (1 - 1.1e-3, 1.0)]
+    for sc in scs:
+        nr = max(1, round(min(sc)))
+        for mir in ((0, 3) if thorough else (0,)):
+            for sub in ((0.0, -0.04, 0.3) if thorough else (0.0, -0.04)):
+                for pad, al in (PADAL_W if thorough else PADAL_W[:2]):
+                    for ky in (-nr, 0):
+                        for j in range(-7, -(-nsx // nr) + 2):
+                            yield (si, DST_A[0], sc, mir, 0, nr * j, ky, sub, pad, al, ())
+
+
+def gen_P(thorough):
+    """tiny and huge pixels, origins off whole numbers; includes the 180 degree turn"""
+    scs = SC_INT[:3] + SC_FRAC[:3] if thorough else [(1.0, 1.0), (2.0, 2.0), (0.5, 0.5), (1.5, 1.5)]
+    return _gen_A((3, 4), DST_A[:1], scs, (0, 1, 2, 3) if thorough else (0, 3), (0, 15, 180),
+                  SUB_MID if thorough else (0.0, -0.04, 0.3), TIGHT + [(1, 2)] if thorough else TIGHT, ("A", -2, 0, "N") if thorough else (-2, 0))
+
+
 def _kind(sc, rot):
     if rot:
         return f"rot{rot}"
     if sc[0] != sc[1]:
         return "st-aniso"
     s = sc[0]
+    if s >= 0.9 and 1e-6 < abs(s - round(s)) < 0.05:
+        return "st-near-int"
     return "st-int" if abs(s - round(s)) < 1e-3 and s >= 1 else "st-frac"
 
 
 def run_A(case):
-    si, dshape, sc, mir, rot, kx, ky, sub, pad, al = case
+    si, dshape, sc, mir, rot, kx, ky, sub, pad, al, *rest = case
+    extra = dict(rest[0]) if rest else {}
+    as_np = extra.pop("np", False)  # options given as numpy integers (np.int64(0) is as falsy as 0)
     sshape, sA, crs = SRC_A[si]
     nsy, nsx = sshape
     B, ew, eh = _base(dshape, sc, mir, rot)
@@ -329,11 +402,11 @@ def run_A(case):
     S = Affine(*sA)
     src = GeoBox(sshape, S, crs)
     dst = GeoBox(dshape, S * A, crs)
-    kw = {}
+    kw = dict(extra)
     if pad is not None:
-        kw["padding"] = pad
+        kw["padding"] = np.int64(pad) if as_np else pad
     if al is not None:
-        kw["align"] = al
+        kw["align"] = np.int64(al) if as_np else al
     info = OV.compute_reproject_roi(src, dst, **kw)
 
     # harness' own mapping dst pixel centre -> world -> src pixel (from the GeoBoxes' affines)
@@ -351,6 +424,10 @@ def run_A(case):
     place = "apart" if g > pe else ("near" if g >= 0 else ("inside" if lx >= 0 and ly >= 0 and lx + ew <= nsx and ly + eh <= nsy else "partial"))
 
     tag = f"same-crs:{_kind(sc, rot)}:pad={pad}:align={al}"
+    if rest:
+        tag += ":" + (",".join(f"{k}={v}" for k, v in rest[0]) or "defaults")
+    if si >= 3:
+        tag += ":" + ("tiny-px", "huge-px", "larger-src")[si - 3]
     what = (f"src=GeoBox({sshape}, Affine{sA}, {crs}); dst=GeoBox({dshape}, src.affine*A, crs) with A(dst->src px)="
             f"translation({lx!r},{ly!r})*{tuple(B)[:6]} [scale={sc} mirror={mir} rot={rot}]; compute_reproject_roi(src, dst, {kw})")
     r = R()
@@ -705,7 +782,12 @@ CALLS_H.update({
     "plan:other": "plan-other-pair", "plan:other:pad2-align4": "plan-other-pair", "plan:other-same-crs": "plan-other-pair",
     "pix-transform:other": "native-pix-transform",
     "gbx:fwd-out-of-range": "gbx-out-of-range", "gbx:back-out-of-range": "gbx-out-of-range",
+    # on the SAME GeoBox instances that are planned again afterwards
+    "lazy:properties": "lazy-properties-read", "view:crop-and-zoom": "derived-views-planned",
+    "plan:same-pair-reversed": "plan-same-instances", "plan:same-pair:pad3-align4": "plan-same-instances",
 })
+CHURN_H = "crs-churn:140-live-crs-and-transformers"  # only as a sequence of its own (and followed by one other plan)
+_KEEP_H = []
 
 
 def _pair_H(spec):
@@ -725,7 +807,35 @@ def _interfere(name, src, dst):
     """One interfering public call; whatever it returns or raises is not the subject here."""
     try:
         kind = name.split(":")
-        if kind[0] == "scale-at-point":
+        if name == "lazy:properties":
+            for g in (src, dst):
+                for prop in ("extent", "boundingbox", "geographic_extent", "resolution", "coordinates", "alignment", "center_pixel"):
+                    try:
+                        getattr(g, prop)
+                    except Exception:  # pylint: disable=broad-except
+                        pass
+                _ = (g.crs.epsg, g.crs.geographic, g.crs.units, g.footprint("EPSG:4326").boundingbox)
+        elif name == "view:crop-and-zoom":
+            OV.compute_reproject_roi(src, dst[1:-1, 2:-2])
+            OV.compute_reproject_roi(src[2:, :-3], dst)
+            if isinstance(src, GeoBox):
+                OV.compute_reproject_roi(src.zoom_out(2), dst.zoom_out(0.5))
+        elif name == "plan:same-pair-reversed":
+            OV.compute_reproject_roi(dst, src)
+        elif name == "plan:same-pair:pad3-align4":
+            OV.compute_reproject_roi(src, dst, padding=3, align=4)
+        elif name == CHURN_H:
+            from odc.geo.crs import CRS  # pylint: disable=import-outside-toplevel
+            for z in range(1, 61):  # 120 UTM zones + 20 shifted Lambert cones, all kept alive, each used in a transformer
+                for e in (32600 + z, 32700 + z):
+                    c = CRS(f"EPSG:{e}")
+                    c.transformer_to_crs(src.crs)(500000.0, 1e6 if e < 32700 else 9e6)
+                    _KEEP_H.append(c)
+            for k in range(20):
+                c = CRS(f"+proj=lcc +lat_1={30 + k} +lat_2={50 + k} +lon_0={k} +datum=WGS84 +units=m +no_defs")
+                dst.crs.transformer_to_crs(c)(10.0 + k, 40.0)
+                _KEEP_H.append(c)
+        elif kind[0] == "scale-at-point":
             a, b = (src, dst) if kind[1] == "same" else _pair_H(OTHER_H)[:2]
             r = {str(v): v for v in R_H}[kind[2][2:]]
             tr = OV.native_pix_transform(a, b)
@@ -782,6 +892,9 @@ def gen_H(maxlen):
         for n in range(maxlen + 1):
             for seq in itertools.product(CALLS_H, repeat=n):
                 yield (pair, seq)
+        if maxlen >= 2:
+            yield (pair, (CHURN_H,))
+            yield (pair, (CHURN_H, "plan:other"))
 
 
 def run_H(case):
@@ -790,16 +903,20 @@ def run_H(case):
     ref_info = OV.compute_reproject_roi(src, dst)  # (1) reference: first thing the case does
     ref = _snapshot(ref_info, src, dst)
     res = [_interfere(name, src, dst) for name in seq]
+    info = OV.compute_reproject_roi(src, dst)  # the same instances again
+    got = _snapshot(info, src, dst)
     src2, dst2, _, _ = _pair_H(PAIRS_H[pair])  # identical inputs, fresh objects
-    info = OV.compute_reproject_roi(src2, dst2)
-    got = _snapshot(info, src2, dst2)
-    after = "+".join(sorted({CALLS_H[n] for n in seq})) or "nothing"
+    got2 = _snapshot(OV.compute_reproject_roi(src2, dst2), src2, dst2)
+    after = "+".join(sorted({CALLS_H.get(n, "crs-churn") for n in seq})) or "nothing"
     what = f"pair {pair} {PAIRS_H[pair]}: plan, then {list(seq)} (-> {res}), then the same plan again"
     r = R()
     for field in ref:
         if ref[field] != got[field]:
             r.fail(f"reproject_roi:history-dependent:{pair}:after-{after}:{field}",
-                   f"{what}: {field} was {ref[field]} and is now {got[field]}")
+                   f"{what}: {field} was {ref[field]} and is now {got[field]} (same GeoBox instances)")
+        elif ref[field] != got2[field]:
+            r.fail(f"reproject_roi:history-dependent:{pair}:after-{after}:{field}:fresh-instances",
+                   f"{what}: {field} was {ref[field]} and is {got2[field]} on freshly built identical GeoBoxes")
     # (2) state-independent clauses on BOTH plans: a worker that was poisoned before this case started gives the
     # same wrong answer twice, but not the answer of the harness' own mapping
     sshape, dshape = tuple(src.shape), tuple(dst.shape)
@@ -902,6 +1019,424 @@ def run_L(case):
 
 
 # =================================================================================================
+# spaces "canvas" and "curvature": windows given in lon/lat, rasterised in two CRSs
+# =================================================================================================
+def judge_cross(r, tag, what, info, sshape, sA6, dshape, dA6, es, ed, pad, al=None, rel=1e-3):
+    """All clauses for a cross-CRS plan from the harness' own mapping (fresh pyproj + the two affines)."""
+    xx, yy = centres(dshape)
+    SX, SY = dst_to_src(sA6, dA6, es, ed, xx, yy)
+    del xx, yy
+    exp = None
+    if _roi_ok(info.roi_dst) and not _area0(info.roi_dst):
+        cy_ = (info.roi_dst[0].start + info.roi_dst[0].stop) / 2
+        cx_ = (info.roi_dst[1].start + info.roi_dst[1].stop) / 2
+        px, py = dst_to_src(sA6, dA6, es, ed, [cx_ + 1, cx_ - 1, cx_, cx_], [cy_, cy_, cy_ + 1, cy_ - 1])
+        if np.isfinite(px).all() and np.isfinite(py).all():
+            c0 = ((px[0] - px[1]) / 2, (py[0] - py[1]) / 2)
+            c1 = ((px[2] - px[3]) / 2, (py[2] - py[3]) / 2)
+            n0 = math.hypot(*c0)
+            exp = (n0, abs(c0[0] * c1[1] - c0[1] * c1[0]) / n0)
+    n_need = judge(r, tag, what, info, sshape, dshape, SX, SY, False, exp, rel)
+    check_transform(r, tag, what, info, dshape, SX, SY, corners_only=SX.size > 10000)
+    return n_need, SX, SY
+
+
+def window_raster(epsg, win, shape):
+    """Axis-aligned raster in `epsg` covering the lon/lat window (lon0, lon1, lat0, lat1) with shape (ny, nx)."""
+    lon0, lon1, lat0, lat1 = win
+    lons, lats = np.meshgrid(np.linspace(lon0, lon1, 9), np.linspace(lat0, lat1, 9))
+    if epsg == 4326:
+        xs, ys = lons.ravel(), lats.ravel()
+    else:
+        xs, ys = fresh_tr(4326, epsg).transform(lons.ravel(), lats.ravel())
+    ny, nx = shape
+    x0, x1, y0, y1 = float(np.min(xs)), float(np.max(xs)), float(np.min(ys)), float(np.max(ys))
+    return (ny, nx), ((x1 - x0) / nx, 0.0, x0, 0.0, -(y1 - y0) / ny, y1)
+
+
+def _sub_window(win, fx0, fx1, fy0, fy1):
+    lon0, lon1, lat0, lat1 = win
+    return (lon0 + fx0 * (lon1 - lon0), lon0 + fx1 * (lon1 - lon0), lat1 - fy1 * (lat1 - lat0), lat1 - fy0 * (lat1 - lat0))
+
+
+# a large canvas and a smaller raster that covers only part of it: the overlap does not start at destination pixel (0, 0)
+# and the local scale varies strongly over the canvas; "scale measured at the centre of the OVERLAP"
+CANVAS = {  # name: (canvas epsg, region epsg, canvas window)
+    "geo-canvas/merc": (4326, 3857, (-120.0, 120.0, -45.0, 75.0)),
+    "merc-canvas/geo": (3857, 4326, (-120.0, 120.0, -45.0, 75.0)),
+    "geo-canvas/laea": (4326, 3035, (-25.0, 50.0, 30.0, 72.0)),
+    "laea-canvas/geo": (3035, 4326, (-25.0, 50.0, 30.0, 72.0)),
+}
+REGION_POS = {  # fractions of the canvas window: x0, x1, y0 (top), y1
+    "middle": (0.4, 0.6, 0.35, 0.65), "bottom": (0.3, 0.7, 0.75, 0.98), "right": (0.78, 0.99, 0.2, 0.8),
+    "top-left": (0.02, 0.2, 0.03, 0.3), "beyond-right": (0.85, 1.15, 0.4, 0.9), "whole": (-0.05, 1.05, -0.05, 1.05),
+}
+
+
+def gen_canvas():
+    for name in CANVAS:
+        for pos in REGION_POS:
+            for direction in ("region->canvas", "canvas->region"):
+                for pad in (None, 0):
+                    yield (name, pos, direction, pad)
+
+
+def run_canvas(case):
+    name, pos, direction, pad = case
+    ce, re_, win = CANVAS[name]
+    cshape, cA6 = window_raster(ce, win, (48, 96))
+    rshape, rA6 = window_raster(re_, _sub_window(win, *REGION_POS[pos]), (32, 40))
+    if direction == "region->canvas":
+        (sshape, sA6, es), (dshape, dA6, ed) = (rshape, rA6, re_), (cshape, cA6, ce)
+    else:
+        (sshape, sA6, es), (dshape, dA6, ed) = (cshape, cA6, ce), (rshape, rA6, re_)
+    src, dst = GeoBox(sshape, Affine(*sA6), f"EPSG:{es}"), GeoBox(dshape, Affine(*dA6), f"EPSG:{ed}")
+    kw = {} if pad is None else {"padding": pad}
+    info = OV.compute_reproject_roi(src, dst, **kw)
+    tag = f"canvas:{name}:{pos}:{direction}:pad={pad}"
+    what = f"src=GeoBox({sshape}, Affine{sA6}, EPSG:{es}); dst=GeoBox({dshape}, Affine{dA6}, EPSG:{ed}); compute_reproject_roi(src, dst, {kw})"
+    r = R()
+    n_need, _, _ = judge_cross(r, tag, what, info, sshape, sA6, dshape, dA6, es, ed, pad)
+    off = _roi_ok(info.roi_dst) and (info.roi_dst[0].start > 0 or info.roi_dst[1].start > 0)
+    r.outcome = f"canvas:{name}:{direction}:{'overlap-off-origin' if off else 'overlap-at-origin'}:rs{min(int(info.read_shrink), 4)}:{_cover(info, dshape, n_need)}"
+    r.nontrivial = n_need > 0
+    return r
+
+
+# edge curvature: 600-1000 pixel rasters over windows where the edges of one raster bulge by several pixels in the other;
+# five boundary points per side have to bound that bulge
+CURV = {  # name: (projected epsg, window)
+    "laea-europe": (3035, (-10.0, 40.0, 35.0, 70.0)),
+    "albers-australia": (3577, (112.0, 154.0, -44.0, -10.0)),
+    "utm33-wide": (32633, (3.0, 27.0, 40.0, 65.0)),
+    "merc-north": (3857, (-10.0, 40.0, 35.0, 70.0)),
+}
+
+
+def gen_curv(thorough):
+    for name in CURV:
+        for direction in ("proj->geo", "geo->proj"):
+            for n in ((600, 1000) if thorough else (800,)):
+                for pad in ((None, 0, 1, 3) if thorough else (None,)):
+                    yield (name, direction, n, pad)
+
+
+def run_curv(case):
+    name, direction, n, pad = case
+    pe, win = CURV[name]
+    pshape, pA6 = window_raster(pe, win, (n, n))
+    gshape, gA6 = window_raster(4326, win, (n - 40, n + 60))
+    if direction == "proj->geo":
+        (sshape, sA6, es), (dshape, dA6, ed) = (pshape, pA6, pe), (gshape, gA6, 4326)
+    else:
+        (sshape, sA6, es), (dshape, dA6, ed) = (gshape, gA6, 4326), (pshape, pA6, pe)
+    src, dst = GeoBox(sshape, Affine(*sA6), f"EPSG:{es}"), GeoBox(dshape, Affine(*dA6), f"EPSG:{ed}")
+    kw = {} if pad is None else {"padding": pad}
+    info = OV.compute_reproject_roi(src, dst, **kw)
+    tag = f"curvature:{name}:{direction}:pad={pad}"
+    what = f"src=GeoBox({sshape}, Affine{sA6}, EPSG:{es}); dst=GeoBox({dshape}, Affine{dA6}, EPSG:{ed}); compute_reproject_roi(src, dst, {kw})"
+    r = R()
+    n_need, SX, SY = judge_cross(r, tag, what, info, sshape, sA6, dshape, dA6, es, ed, pad)
+    # how far the destination boundary bulges beyond the envelope of five points per side (source pixels), as an observation
+    bx, by = dst_to_src(sA6, dA6, es, ed, *_boundary(dshape, 1))
+    ny, nx = dshape
+    cx5, cy5 = np.meshgrid(np.linspace(0, nx, 5), np.linspace(0, ny, 5))
+    edge = (cx5 == 0) | (cx5 == nx) | (cy5 == 0) | (cy5 == ny)
+    ex, ey = dst_to_src(sA6, dA6, es, ed, cx5[edge], cy5[edge])
+    bulge = max(float(ex.min() - bx.min()), float(bx.max() - ex.max()), float(ey.min() - by.min()), float(by.max() - ey.max()))
+    r.outcome = f"curvature:{name}:{direction}:bulge-{'>3px' if bulge > 3 else '1-3px' if bulge > 1 else '<1px'}:{_cover(info, dshape, n_need)}"
+    r.counts = {f"obs:curvature:{name}:{direction}:n={n}:bulge-beyond-5pt-envelope-in-0.1px": int(round(bulge * 10))}
+    r.nontrivial = n_need > 0
+    return r
+
+
+# =================================================================================================
+# space E: the same rasters given in other encodings (CRS spellings, numpy shapes, int / -0.0 affines)
+# =================================================================================================
+UTM33_PROJ4 = "+proj=utm +zone=33 +datum=WGS84 +units=m +no_defs"
+
+
+@functools.lru_cache(maxsize=None)
+def _utm33_texts():
+    c = pyproj.CRS.from_epsg(32633)
+    wkt = c.to_wkt()
+    stale = wkt.replace('"Longitude of natural origin",15', '"Longitude of natural origin",16.5')
+    assert stale != wkt and 'ID["EPSG",32633]' in stale
+    return wkt, c.to_json(), stale
+
+
+ENC_UTM = ("EPSG:32633", "epsg:32633", "int", "wkt", "projjson", "pyproj-object", "odc-object", "proj4-no-epsg")
+REL_E = {"paste-shift": ((1.0, 1.0), 0, (2.0, 1.0)), "sub-pixel": ((1.0, 1.0), 0, (2.3, 1.3)), "rot15-scale1.5": ((1.5, 1.5), 15, (0.7, -1.2))}
+GRID_ENC = ("plain", "numpy-shape", "list-shape", "int-affine", "negative-zero-affine")
+PADAL_E = [(None, None), (0, 0)]
+
+
+def _crs_enc(name):
+    """-> (object handed to GeoBox, what the harness gives to pyproj for its own transformer)"""
+    wkt, pj, stale = _utm33_texts()
+    if name == "int":
+        return 32633, 32633
+    if name == "wkt":
+        return wkt, 32633
+    if name == "projjson":
+        return pj, 32633
+    if name == "pyproj-object":
+        return pyproj.CRS.from_epsg(32633), 32633
+    if name == "odc-object":
+        from odc.geo.crs import CRS  # pylint: disable=import-outside-toplevel
+        return CRS("EPSG:32633"), 32633
+    if name == "proj4-no-epsg":
+        return UTM33_PROJ4, 32633
+    if name == "stale-id-wkt":
+        return stale, stale  # a different CRS (central meridian 16.5) that still carries ID["EPSG",32633]
+    if name in ("EPSG:4326", "OGC:CRS84"):
+        return name, 4326  # same lon/lat mapping in x,y order
+    return name, 32633
+
+
+def gen_E():
+    for rel in REL_E:
+        for pad, al in PADAL_E:
+            for a in ENC_UTM:
+                for b in ENC_UTM:
+                    yield ("utm", a, b, "plain", rel, pad, al)
+                for x, y in ((a, "stale-id-wkt"), ("stale-id-wkt", a)):
+                    yield ("utm", x, y, "plain", rel, pad, al)
+            for a, b in (("EPSG:4326", "OGC:CRS84"), ("OGC:CRS84", "EPSG:4326"), ("OGC:CRS84", "OGC:CRS84")):
+                yield ("geo", a, b, "plain", rel, pad, al)
+            for g in GRID_ENC[1:]:
+                yield ("utm", "EPSG:32633", "EPSG:32633", g, rel, pad, al)
+                yield ("utm", "EPSG:32633", "stale-id-wkt", g, rel, pad, al)
+
+
+def _grid_enc(shape, A6, g):
+    if g == "numpy-shape":
+        shape = tuple(np.int64(v) for v in shape)
+    elif g == "list-shape":
+        shape = list(shape)
+    if g == "int-affine":
+        A6 = tuple(int(v) if float(v).is_integer() else v for v in A6)
+    elif g == "negative-zero-affine":
+        A6 = tuple(-0.0 if v == 0 else v for v in A6)
+    return shape, Affine(*A6)
+
+
+def run_E(case):
+    fam, ea, eb, g, rel, pad, al = case
+    sc, rot, (lx, ly) = REL_E[rel]
+    sshape, dshape = (6, 7), (5, 6)
+    sA6 = (30.0, 0.0, 499980.0, 0.0, -30.0, 6000030.0) if fam == "utm" else (0.1, 0.0, 14.3, 0.0, -0.05, 54.2)
+    B, _, _ = _base(dshape, sc, 0, rot)
+    ca, pa = _crs_enc(ea)
+    cb, pb = _crs_enc(eb)
+    same = pa == pb
+    if same:
+        dA6 = affine6(Affine(*sA6) * Affine.translation(lx, ly) * B)
+    else:  # a different CRS: put the destination over the source through the harness transformer
+        wx, wy = pix_to_world(sA6, lx, ly)
+        dx, dy = fresh_tr(pa, pb).transform(wx, wy)
+        dA6 = affine6(Affine.translation(dx, dy) * Affine(sA6[0], 0, 0, 0, sA6[4], 0) * B)
+    s_shape, s_aff = _grid_enc(sshape, sA6, g)
+    d_shape, d_aff = _grid_enc(dshape, dA6, "plain" if g in ("int-affine",) else g)
+    src = GeoBox(s_shape, s_aff, ca)
+    dst = GeoBox(d_shape, d_aff, cb)
+    kw = {}
+    if pad is not None:
+        kw.update(padding=pad, align=al)
+    info = OV.compute_reproject_roi(src, dst, **kw)
+    xx, yy = centres(dshape)
+    if same:
+        SX, SY = world_to_pix(sA6, *pix_to_world(dA6, xx, yy))
+        exp, rel_tol = sc, (1e-9 if info.transform.linear is not None else 1e-6)
+    else:
+        SX, SY = dst_to_src(sA6, dA6, pa, pb, xx, yy)
+        exp, rel_tol = None, 1e-6
+        if _roi_ok(info.roi_dst) and not _area0(info.roi_dst):
+            cy_ = (info.roi_dst[0].start + info.roi_dst[0].stop) / 2
+            cx_ = (info.roi_dst[1].start + info.roi_dst[1].stop) / 2
+            px, py = dst_to_src(sA6, dA6, pa, pb, [cx_ + 1, cx_ - 1, cx_, cx_], [cy_, cy_, cy_ + 1, cy_ - 1])
+            c0 = ((px[0] - px[1]) / 2, (py[0] - py[1]) / 2)
+            c1 = ((px[2] - px[3]) / 2, (py[2] - py[3]) / 2)
+            n0 = math.hypot(*c0)
+            exp = (n0, abs(c0[0] * c1[1] - c0[1] * c1[0]) / n0)
+    cls = "stale-id" if "stale-id-wkt" in (ea, eb) and not same else ("same-crs-other-spelling" if ea != eb else "same-spelling")
+    tag = f"encoding:{cls}:{ea}>{eb}:{g}:pad={pad}:align={al}"
+    what = (f"src=GeoBox({s_shape!r}, {s_aff!r}, crs given as {ea}); dst=GeoBox({d_shape!r}, {d_aff!r}, crs given as {eb}); "
+            f"compute_reproject_roi(src, dst, {kw}) [{rel}]")
+    r = R()
+    n_need = judge(r, tag, what, info, sshape, dshape, SX, SY, False, exp, rel_tol)
+    check_transform(r, tag, what, info, dshape, SX, SY)
+    r.outcome = f"enc:{cls}:{g}:{'linear' if info.transform.linear is not None else 'via-transformer'}:{'paste' if info.paste_ok else 'sampled'}:{_cover(info, dshape, n_need)}"
+    r.nontrivial = n_need > 0
+    return r
+
+
+# =================================================================================================
+# space N: the caller's inputs are not modified; a second call answers like the first
+# =================================================================================================
+PTS_N = {
+    "inside": [(1.5, 2.5), (6.2, 3.1), (4.0, 7.9)],
+    "with-nan-inf": [(1.5, 2.5), (float("nan"), 3.0), (6.2, float("inf")), (4.0, 7.9)],
+    "far": [(-1e300, 2.5), (1e300, 3.0), (4.0, 1e19)],
+    "ints": [(1, 2), (6, 3), (4, 8)],
+}
+LAYOUT_N = ("c-float64", "fortran", "strided", "float32", "int64")
+
+
+def gen_N():
+    for pts in PTS_N:
+        for lay in LAYOUT_N:
+            for pad in (0, 1):
+                for al in (None, 0, 4):
+                    yield ("roi_from_points", pts, lay, pad, al)
+    for roi in (((1, 5), (2, 9)), ((0, 0), (3, 3)), ((2, 7), (0, 1))):
+        for a in (2, 5):
+            yield ("roi_boundary", roi, a)
+            yield ("scaled_up_roi", roi, a)
+    for pair in PAIRS_H:
+        yield ("compute_reproject_roi", pair)
+
+
+def _layout(pts, lay):
+    a = np.asarray(pts, dtype="float64")
+    if lay == "fortran":
+        return np.asfortranarray(a)
+    if lay == "strided":
+        big = np.full((a.shape[0] * 2, 4), -7.0)
+        big[::2, 1:3] = a
+        return big[::2, 1:3]
+    if lay == "float32":
+        return a.astype("float32")
+    if lay == "int64":
+        return np.nan_to_num(np.clip(a, -1e18, 1e18), nan=0.0).astype("int64")
+    return a
+
+
+def run_N(case):
+    from odc.geo import roi as ROI  # pylint: disable=import-outside-toplevel
+
+    fn = case[0]
+    r = R(outcome=fn)
+    if fn == "roi_from_points":
+        _, pts, lay, pad, al = case
+        xy = _layout(PTS_N[pts], lay)
+        base = xy.base.copy() if xy.base is not None else None
+        before = xy.copy()
+        shape = [9, 8]
+        got1 = ROI.roi_from_points(xy, shape, pad, align=al)
+        same_bits = xy.tobytes() == before.tobytes() and xy.dtype == before.dtype and (base is None or xy.base.tobytes() == base.tobytes())
+        got2 = ROI.roi_from_points(xy, shape, pad, align=al)
+        fresh = ROI.roi_from_points(np.array(before, dtype="float64", order="C"), (9, 8), pad, align=al)
+        key = f"{pts}:{lay}"
+        if not same_bits:
+            r.fail(f"roi_from_points:input-modified:{key}", f"{case}: array before {before.tolist()} after {xy.tolist()}")
+        if shape != [9, 8]:
+            r.fail(f"roi_from_points:shape-argument-modified:{key}", f"{case}: {shape}")
+        if not got1 == got2 == fresh:
+            r.fail(f"roi_from_points:second-call-differs:{key}", f"{case}: first {got1}, second {got2}, on a fresh float64 copy {fresh}")
+        r.outcome = f"{fn}:{pts}:{lay}"
+    elif fn in ("roi_boundary", "scaled_up_roi"):
+        _, roi_t, a = case
+        roi = tuple(slice(*t) for t in roi_t)
+        shape = [6, 7]
+        if fn == "roi_boundary":
+            g1, g2 = ROI.roi_boundary(roi, a), ROI.roi_boundary(roi, a)
+            same = g1.tobytes() == g2.tobytes()
+            g1[:] = -1  # the caller may scribble on the result without affecting the next answer
+            same = same and ROI.roi_boundary(roi, a).tobytes() == g2.tobytes()
+        else:
+            g1, g2 = ROI.scaled_up_roi(roi, a, shape), ROI.scaled_up_roi(roi, a, shape)
+            same = g1 == g2
+        if roi != tuple(slice(*t) for t in roi_t) or shape != [6, 7]:
+            r.fail(f"{fn}:input-modified", f"{case}: roi {roi} shape {shape}")
+        if not same:
+            r.fail(f"{fn}:second-call-differs", f"{case}: {g1} vs {g2}")
+    else:
+        pair = case[1]
+        src, dst, _, _ = _pair_H(PAIRS_H[pair])
+        snap = lambda g: (tuple(g.shape), affine6(g.transform), str(g.crs))  # noqa: E731
+        b_src, b_dst = snap(src), snap(dst)
+        i1 = _snapshot(OV.compute_reproject_roi(src, dst), src, dst)
+        i2 = _snapshot(OV.compute_reproject_roi(src, dst), src, dst)
+        if (snap(src), snap(dst)) != (b_src, b_dst):
+            r.fail(f"compute_reproject_roi:input-modified:{pair}", f"{case}: {b_src},{b_dst} -> {snap(src)},{snap(dst)}")
+        if i1 != i2:
+            r.fail(f"compute_reproject_roi:second-call-differs:{pair}", f"{case}: {i1} vs {i2}")
+    return r
+
+
+# =================================================================================================
+# space GCP: control-point based rasters (compute_reproject_roi accepts any GeoBoxBase)
+# =================================================================================================
+# Control points are generated from an exact affine, so that the harness knows the pixel<->world map without using the
+# library's polynomial fit; "crop" is a derived view (box[roi]) that shares the mapping object with its parent.
+PAIRS_GCP = PAIRS + [(32633, 32633, "utm33"), (4326, 4326, "world")]
+WHICH_GCP = ("src-gcp", "dst-gcp", "both-gcp", "src-gcp-crop", "dst-gcp-crop")
+
+
+def _gcp_box(shape, A, epsg, crop):
+    from odc.geo.gcp import GCPGeoBox, GCPMapping  # pylint: disable=import-outside-toplevel
+
+    ny, nx = shape
+    if crop:  # parent grows by (3, 2) pixels on the top/left and (1, 4) on the bottom/right; the view cuts that off again
+        A = A * Affine.translation(-2, -3)
+        pny, pnx = ny + 4, nx + 6
+    else:
+        pny, pnx = ny, nx
+    pix = np.asarray([(x, y) for x in np.linspace(0, pnx, 5) for y in np.linspace(0, pny, 5)], dtype="float64")
+    wld = np.asarray([A * (x, y) for x, y in pix], dtype="float64")
+    box = GCPGeoBox((pny, pnx), GCPMapping(pix, wld, f"EPSG:{epsg}"))
+    return box[3:3 + ny, 2:2 + nx] if crop else box
+
+
+def gen_GCP(thorough):
+    for es, ed, region in PAIRS_GCP:
+        for loc in ((0, 3) if thorough else (0,)):
+            for kname in ("third", "one", "three"):
+                for pname in (list(PLACE_B) if thorough else ("contained", "corner", "apart-right")):
+                    for which in WHICH_GCP:
+                        for pad in (None, 0):
+                            yield (es, ed, region, loc, kname, pname, which, pad)
+
+
+def run_GCP(case):
+    es, ed, region, loc, kname, pname, which, pad = case
+    (lon, lat) = REGIONS[region][loc]
+    sA, dA, dshape = build_B(es, ed, lon, lat, 1000.0, kname, pname, "north-up")
+    crop = which.endswith("crop")
+    src = _gcp_box(SRC_B, sA, es, crop) if which.startswith(("src", "both")) else GeoBox(SRC_B, sA, f"EPSG:{es}")
+    dst = _gcp_box(dshape, dA, ed, crop) if which.startswith(("dst", "both")) else GeoBox(dshape, dA, f"EPSG:{ed}")
+    kw = {} if pad is None else {"padding": pad}
+    info = OV.compute_reproject_roi(src, dst, **kw)
+    sA6, dA6 = affine6(sA), affine6(dA)
+    xx, yy = centres(dshape)
+    SX, SY = dst_to_src(sA6, dA6, es, ed, xx, yy)
+    exp = None
+    if _roi_ok(info.roi_dst) and not _area0(info.roi_dst):
+        cy_ = (info.roi_dst[0].start + info.roi_dst[0].stop) / 2
+        cx_ = (info.roi_dst[1].start + info.roi_dst[1].stop) / 2
+        px, py = dst_to_src(sA6, dA6, es, ed, [cx_ + 1, cx_ - 1, cx_, cx_], [cy_, cy_, cy_ + 1, cy_ - 1])
+        c0 = ((px[0] - px[1]) / 2, (py[0] - py[1]) / 2)
+        c1 = ((px[2] - px[3]) / 2, (py[2] - py[3]) / 2)
+        n0 = math.hypot(*c0)
+        exp = (n0, abs(c0[0] * c1[1] - c0[1] * c1[0]) / n0)
+    bx, by = dst_to_src(sA6, dA6, es, ed, *_boundary(dshape))
+    nsy, nsx = SRC_B
+    must_empty = bool(np.isfinite(bx).all() and np.isfinite(by).all()
+                      and max(-bx.max(), bx.min() - nsx, -by.max(), by.min() - nsy) > _peff(pad) + 0.01)
+    tag = f"gcp:{which}:{'same-crs' if es == ed else 'cross-crs'}:pad={pad}"
+    what = (f"src {SRC_B} Affine{tuple(sA6)} EPSG:{es}; dst {dshape} Affine{tuple(dA6)} EPSG:{ed}; {which}: GCPGeoBox from a 5x5 grid of "
+            f"control points generated by that affine{' (parent grown by 4x6 px, then cropped back with [3:, 2:])' if crop else ''}; "
+            f"compute_reproject_roi(src, dst, {kw}) [{region} {lon},{lat} k={kname} place={pname}]")
+    r = R()
+    n_need = judge(r, tag, what, info, SRC_B, dshape, SX, SY, must_empty, exp, 1e-3)
+    check_transform(r, tag, what, info, dshape, SX, SY)
+    r.outcome = f"gcp:{which}:{es}>{ed}:{_cover(info, dshape, n_need)}"
+    r.nontrivial = n_need > 0 or must_empty
+    return r
+
+
+# =================================================================================================
 def slices(tier):
     th = tier == "thorough"
     s_all = (0, 1, 2)
@@ -925,24 +1460,50 @@ def slices(tier):
                  "same CRS, destination rotated about its footprint, padding/align pairs"),
         e1.Slice("A-align0", lambda: _gen_A(s_all, dq, SC_ROT, (0, 3), (0, 15) if th else (0,), SUB_FEW, ALIGN0, Y4), run_A,
                  "same CRS, align=0 (accepted by compute_reproject_roi as 'no alignment': `align in (None, 0)`)"),
+        e1.Slice("A-options", lambda: gen_O(th), run_A,
+                 "same CRS: padding {None,0,1,3} x align {None,0,1,2,4} on 9 relations reaching the paste and the sampled path; explicit "
+                 "ttol/stol (0, 0.2 / 0.01) and numpy-integer options on the default / all-zero pairs; every x shift"),
+        e1.Slice("A-windows", lambda: gen_W(th), run_A,
+                 "same CRS, source 23x37: scales n(1+-tol f), n+-tol f (n in 1,2,3,4,8; f in .9,.999,1.001,1.1; tol 1e-3), (1/n)(1+-tol f), "
+                 "just below 1, 1/1024, 4.5e-6; shifts in whole overview pixels: read_shrink and paste windows"),
+        e1.Slice("A-pixels", lambda: gen_P(th), run_A,
+                 "same CRS, 4.5e-6 degree pixels and 1e5 x 2.5e5 m pixels, origins off whole numbers; rotations 0/15/180"),
         e1.Slice("B-local", lambda: _gen_B("B", range(5), list(PLACE_B), PADAL_B + ([(0, 2), (3, None)] if th else []),
                                            ("north-up", "dst-rot", "src-yup") if th else ("north-up",)), run_B,
                  "14 ordered CRS pairs x 5 locations x 3 scale classes x 10 placements; 1 km ground pixels, rasters <= 48x48"),
         e1.Slice("B-continental", lambda: _gen_B("C", (0,), list(PLACE_B)[:6], [(None, None), (0, None), (1, None)],
                                                  ("north-up", "dst-rot") if th else ("north-up",)), run_B,
                  "same pairs, one large-extent configuration per region (10-140 km pixels, destination up to 48x48, 6 overlapping placements): boundary curvature"),
+        e1.Slice("B-canvas", gen_canvas, run_canvas,
+                 "48x96 canvas (lon/lat, Mercator, LAEA over tens of degrees) vs a 32x40 raster in another CRS covering its middle / "
+                 "bottom / right / top-left / beyond the right edge / everything, both directions: overlap off the origin, varying scale"),
+        e1.Slice("B-curvature", lambda: gen_curv(th), run_curv,
+                 "600-1000 px rasters in LAEA / Albers / UTM far from the meridian / Mercator vs lon/lat over the same window, both "
+                 "directions: edges bulge by several pixels between five boundary samples"),
         e1.Slice("G-overhang", gen_G, run_G,
                  "lon/lat rasters (2.5/5/10 deg, <= 48x96) overhanging the poles and/or +-180 by half a pixel or several, as source "
                  "and as destination, against world rasters in EPSG:4087, 6933, 8857, Mollweide, 3857: the documented lon/lat clamp"),
+        e1.Slice("E-encodings", gen_E, run_E,
+                 "UTM33 given as EPSG:n / epsg:n / int / WKT / PROJJSON / pyproj / odc object / proj4 without code, all ordered pairs; "
+                 "each against a WKT with an edited central meridian that still carries ID[EPSG,32633]; EPSG:4326 vs OGC:CRS84; "
+                 "numpy / list shapes, int and -0.0 affine terms"),
+        e1.Slice("N-no-mutation", gen_N, run_N,
+                 "roi_from_points (C / Fortran / strided / float32 / int64 arrays, nan/inf rows, |v| up to 1e300), roi_boundary, "
+                 "scaled_up_roi, compute_reproject_roi: arguments unchanged, second call equal to the first and to a fresh copy"),
+        e1.Slice("GCP", lambda: gen_GCP(th), run_GCP,
+                 "control-point rasters (GCPGeoBox from exact-affine GCPs, also as a cropped view of a larger parent) as source, "
+                 "destination or both, against the space-B pairs plus two same-CRS pairs"),
         e1.Slice("long-rasters", lambda: gen_L(th), run_L,
                  "same CRS, shapes (16,2000), (2000,16), (2000,2000): rotation +-0.05/+-0.03/0.01 deg about a corner and about the "
                  "centre, shear 9e-4 in x / y, scale 1+-9e-4 and 2+-9e-4, x whole-pixel and +-4e-4 px shifts x 6 placements (same extent, "
                  "50 px overhang on each side / all sides) x {default, padding=0 align=0}; vectorised brute force over all pixels "
                  "(quick: 4 relations and whole-pixel shifts only for the 2000x2000 shape)"),
         e1.Slice("H-history", lambda: gen_H(3 if th else 2), run_H,
-                 "8 target pairs x every sequence of <= 2 (thorough 3) of 16 interfering public calls (get_scale_at_point with r in "
+                 "8 target pairs x every sequence of <= 2 (thorough 3) of 20 interfering public calls (get_scale_at_point with r in "
                  "{None,0,0.5,16,1e3} on the same/another transform, plans of other pairs, native_pix_transform, out-of-range "
-                 "GbxPointTransform calls) between two computations of the same plan: identical result + state-independent clauses"),
+                 "GbxPointTransform calls, lazy properties read / crops and zooms planned / other plans on the SAME instances; "
+                 "140 live CRS objects with transformers) between computations of the same plan on the same and on fresh instances: "
+                 "identical result + state-independent clauses"),
     ]
     return out
 
